@@ -1,2 +1,58 @@
-From AG Require Import Str.
-Example placeholder : 1 = 1. Proof. reflexivity. Qed.
+(** C13 — output is deterministic.
+
+    The model is a function, so "same input, same output" is trivially true OF THE MODEL.
+    What this file states is why the model may ignore the sources of nondeterminism that
+    exist in the implementation: every place where the code iterates a hash table is
+    followed by something that makes the result independent of the iteration order. *)
+From Coq Require Import List ZArith NArith Bool Lia Permutation Sorted.
+From AG Require Import Str F64 Value Json Expr Ops Pipeline Value_proofs Sort_proofs Sorter_proofs Agg_proofs Determinism_proofs Perm_proofs.
+Import ListNotations.
+
+(** MultiGrouper::emit iterates a HashMap: any enumeration order of the groups gives the same table *)
+Theorem C13_group_order_free : forall keys fns st st',
+  Permutation st st' ->
+  Forall (fun e => Forall (fun v => small_ints v = true) (fst e)) st ->
+  (forall a b, In a st -> In b st -> keys_cmp (fst a) (fst b) = Eq -> a = b) ->
+  g_emit (mkG keys fns st) = g_emit (mkG keys fns st').
+Proof. exact g_emit_order_free. Qed.
+Print Assumptions C13_group_order_free.
+
+(** the Sorter's tie-break makes the sorted table independent of the order in which rows arrive
+    (thread timing, hash order of an upstream aggregation) *)
+Theorem C13_sort_order_free : forall keys desc cols rows rows',
+  Permutation rows rows' ->
+  Forall (row_ok keys) rows ->
+  (forall a b, In a rows -> In b rows -> sort_cmp (mkS keys desc cols rows) a b = Eq -> a = b) ->
+  t_rows (s_emit (mkS keys desc cols rows)) = t_rows (s_emit (mkS keys desc cols rows')).
+Proof. exact sorter_order_independent. Qed.
+Print Assumptions C13_sort_order_free.
+
+(** PreAggAdapter collects the keys of its output rows in a HashSet: the new columns are appended
+    in sorted order, so the column list depends only on the set of keys *)
+Theorem C13_adapter_columns_order_free : forall datas datas',
+  Permutation datas datas' -> all_keys datas = all_keys datas'.
+Proof. exact all_keys_perm. Qed.
+Print Assumptions C13_adapter_columns_order_free.
+
+(** nested objects are im::HashMaps with random seeds: the value (and its serialisation, which
+    sorts the keys) does not depend on the order in which the members are enumerated *)
+Theorem C13_object_order_free : forall kvs kvs',
+  Permutation kvs kvs' -> NoDup (map fst kvs) ->
+  json_to_value (JObj kvs) = json_to_value (JObj kvs').
+Proof. exact object_order_free. Qed.
+Print Assumptions C13_object_order_free.
+
+(** grouping does not depend on which of several equal keys is met first: == is an equivalence *)
+Theorem C13_group_identity : forall a b c,
+  veqb a a = true /\ veqb a b = veqb b a /\ (veqb a b = true -> veqb b c = true -> veqb a c = true).
+Proof. intros. split; [apply veqb_refl|]. split; [apply veqb_sym | apply veqb_trans]. Qed.
+Print Assumptions C13_group_identity.
+
+(** accumulators that are sets (count_distinct) report a size, which is order free *)
+Theorem C13_distinct_order_free : forall e rows rows', Permutation rows rows' ->
+  acc_emit (fold_left acc_step rows (acc_empty (FDistinct e))) =
+  acc_emit (fold_left acc_step rows' (acc_empty (FDistinct e))).
+Proof. exact distinct_perm. Qed.
+Print Assumptions C13_distinct_order_free.
+
+(** record-mode output under thread timing is the business of C15 (stream_safety) *)
